@@ -2,8 +2,8 @@
 """seedkeep.py <id> [<name>] : keep a confirmed seeded change under /verif/seeded/<name>/ and remove its scratch worktree."""
 import sys, os, json, shutil, subprocess, re
 sid = sys.argv[1]; name = sys.argv[2] if len(sys.argv) > 2 else sid
-wt = '/tmp/wt/' + sid; dst = '/verif/seeded/' + name
-log = open('/verif/.scratch/seedcheck/%s.log' % sid).read()
+wt = os.environ.get('SEEDWT', '/tmp/wt') + '/' + sid; dst = '/verif/seeded/' + name
+log = open('/verif/.scratch/seedcheck/%s%s.log' % (os.environ.get('SEEDTAG', ''), sid)).read()
 facts = dict(re.findall(r'(APPLIES_TO_REPO_HEAD|DEMO_WITH_CHANGE_EXIT|DEMO_ON_REPO_HEAD_EXIT)=(\S+)', log))
 suite = re.findall(r'(\d+% tests passed, \d+ tests failed out of \d+)', log)
 assert suite and suite[-1].startswith('100%'), suite
